@@ -985,6 +985,11 @@ fn check_number(
     let g = grad_of(got, names);
     for (i, nm) in names.iter().enumerate() {
         let mut w = want.grad(nm);
+        // (where the closed form itself leaves the double range - inf - inf in its own
+        // intermediates - there is nothing to compare against)
+        if !w.x.is_finite() || !w.m.is_finite() {
+            continue;
+        }
         w.m += scale_floor;
         if !w.close(g[i]) {
             return Err(v(
@@ -1008,6 +1013,9 @@ fn check_number(
         for a in 0..m {
             for b in 0..m {
                 let mut w = want.hess(&names[a], &names[b]);
+                if !w.x.is_finite() || !w.m.is_finite() {
+                    continue;
+                }
                 w.m += scale_floor;
                 if !w.close(h[a * m + b]) {
                     return Err(v(
@@ -1827,8 +1835,14 @@ impl Scenario for C12 {
         sink(generate_with(&mut rng, tier, true));
     }
     fn budget(plan: &Plan) -> u64 {
+        // (the deep exhaustive histories of the thorough tier, with silent detours on curves of
+        // many nodes and variables, are slow, not stuck: one such plan took 25 CPU-seconds)
         if plan.setup.nodes.len() > 5_000 {
             30
+        } else if matches!(plan.history, History::Exhaustive { depth } if depth >= 4) {
+            10
+        } else if plan.silent_detours {
+            3
         } else {
             1
         }
